@@ -10,7 +10,7 @@ import math
 import os
 from fractions import Fraction
 
-from harness.common import main, pool_map
+from harness.common import main, pool_map, VERIF
 from harness import tlc, xtal
 from harness.c02 import table_rows, export_table, MC_CFG as SG_MC_CFG
 from harness.c13 import gram_of
@@ -79,6 +79,81 @@ def parse_res_text(text, n):
     except Exception as e:
         x["exc"] = type(e).__name__
     return x
+
+
+def drive_gen(rec):
+    """A .gen file of kind F or S composed for a cell and atoms on the grid, read back (extension, GenFile.tla)."""
+    import numpy as np
+    from chmpy.crystal import Crystal
+    from chmpy.core.element import Element
+    n, u, gram = rec["n"], rec["u"], rec["gram"]
+    t = {"kind": rec["gkind"], "n": n, "gram": gram, "listed": [{"z": a["z"], "p": a["p"]} for a in rec["atoms"]], "exc": "", "off": False,
+         "loaded": {"number": 0, "nops": 0, "gram": [[0] * 3] * 3, "atoms": []},
+         "meta": {"recipe": rec, "source": "composed-gen-file", "nontrivial": True,
+                  "impl_call": "Crystal.%s(<.gen text of kind %s, %d atoms>)" % ("load" if rec["via"] == "file" else "from_gen_string", rec["gkind"], len(rec["atoms"]))}}
+    try:
+        lengths, angles = xtal.cell_params(gram, u)
+        from chmpy.crystal import UnitCell
+        L = np.asarray(UnitCell.from_lengths_and_angles(lengths, angles).direct, dtype=float)
+        if rec.get("rot") is not None:
+            L = L @ np.array(rec["rot"], dtype=float).T
+        species = []
+        for a in rec["atoms"]:
+            if a["z"] not in species:
+                species.append(a["z"])
+        lines = ["%d %s" % (len(rec["atoms"]), rec["gkind"]), " ".join(Element.from_atomic_number(z).symbol for z in species)]
+        for k, a in enumerate(rec["atoms"]):
+            f = np.array(a["p"], dtype=float) / n
+            v = f if rec["gkind"] == "F" else f @ L
+            lines.append("%d %d %.14f %.14f %.14f" % (k + 1, species.index(a["z"]) + 1, v[0], v[1], v[2]))
+        lines.append("0.0 0.0 0.0")
+        lines += ["%.14f %.14f %.14f" % tuple(row) for row in L]
+        text = "\n".join(lines) + "\n"
+        if rec["via"] == "file":
+            import tempfile, shutil
+            d = tempfile.mkdtemp(prefix="c10gen-", dir=os.path.join(VERIF, "out"))
+            try:
+                path = os.path.join(d, "cell.gen")
+                with open(path, "w") as fh:
+                    fh.write(text)
+                cr = Crystal.load(path)
+            finally:
+                shutil.rmtree(d, ignore_errors=True)
+        else:
+            cr = Crystal.from_gen_string(text)
+        D = np.asarray(cr.unit_cell.direct, dtype=float)
+        g = D @ D.T / (u * u)
+        off = bool(np.max(np.abs(g - np.rint(g))) > 1e-6 * max(1.0, float(np.max(np.abs(g)))))
+        atoms = []
+        for z, fr in zip(cr.asymmetric_unit.atomic_numbers, np.asarray(cr.asymmetric_unit.positions, dtype=float)):
+            p = []
+            for x in fr:
+                k, o = to_grid(float(x), n, 1e-6)
+                p.append(k)
+                off |= o
+            atoms.append({"z": int(z), "p": p})
+        t["loaded"] = {"number": int(cr.space_group.international_tables_number), "nops": len(cr.space_group.symmetry_operations),
+                       "gram": [[int(round(x)) for x in row] for row in g], "atoms": atoms}
+        t["off"] = bool(off)
+    except Exception as e:
+        t["exc"] = type(e).__name__
+    return t
+
+
+def gen_recipes(rng, count):
+    out = []
+    for _ in range(count):
+        n = rng.choice([12, 24, 48])
+        gram = xtal.sym_gram([16484], rng, oblique=rng.random() < 0.6, maxentry=400)
+        na = rng.randint(1, 6)
+        pts = set()
+        while len(pts) < na:
+            pts.add(tuple(rng.randint(-n // 2, n + n // 2) for _ in range(3)))
+        vol = max(na * rng.uniform(12.0, 30.0), 40.0)
+        out.append({"n": n, "gram": gram, "u": (vol / math.sqrt(xtal.det3(gram))) ** (1 / 3.0), "gkind": rng.choice(["F", "S", "S"]),
+                    "atoms": [{"z": rng.choice([1, 6, 7, 8, 14, 26]), "p": list(p)} for p in sorted(pts, key=lambda q: rng.random())],
+                    "via": rng.choice(["string", "file"]), "rot": None})
+    return out
 
 
 def drive(rec):
@@ -339,6 +414,10 @@ def run(ctx):
     recs = [x for x in pool_map(gen, jobs) if "__none__" not in x]
     traces = pool_map(drive, recs)
     ctx.validate("trace/Trace_CrystalFile.tla", traces, batch=2500, timeout=2400)
+    # beyond the listed property: .gen files as a source of crystals (GenFile.tla)
+    import random as _random
+    gtraces = pool_map(drive_gen, gen_recipes(_random.Random(ctx.seed * 131 + 10), ctx.pick(120, 1500)))
+    ctx.validate("trace/Trace_GenFile.tla", gtraces, name="Trace_GenFile (extension)", extension=True, timeout=600)
     ctx.exhaustive = False
     ctx.rule = ("every one of the %d tabulated settings x %d seeded crystals x {CIF, SHELX .res, POSCAR}: 1-4 sites (general and special "
                 "positions, labels El<digits><suffix>, partial occupancies for CIF) on grids N in {12,24,48}, cells from a symmetrised "
